@@ -175,10 +175,19 @@ def parse_results(out):
 
 
 def load_known(pid):
-    p = os.path.join(VERIF, "known_findings.json")
-    if not os.path.exists(p):
-        return []
-    return [k for k in json.load(open(p)).get("findings", []) if k.get("property") == pid and k.get("status") == "known"]
+    """known_findings.json (committed, merged) plus per-property files under
+    known_findings.d/ (one per property so that builders do not collide);
+    never written at run time."""
+    out, seen = [], set()
+    paths = [os.path.join(VERIF, "known_findings.json")] + sorted(glob.glob(os.path.join(VERIF, "known_findings.d", "*.json")))
+    for p in paths:
+        if not os.path.exists(p):
+            continue
+        for k in json.load(open(p)).get("findings", []):
+            if k.get("property") == pid and k.get("status") == "known" and k.get("id") not in seen:
+                seen.add(k.get("id"))
+                out.append(k)
+    return out
 
 
 def default_matcher(payload, known):
